@@ -171,27 +171,26 @@ Qed.
 
 (* xterm / fixterms modifier convention, checked on the whole table: CSI <n> ; <m> <final> names
    the same key as the unmodified entry with modifier mask m - 1 *)
+Definition base_names (w : list N) (k : kname) : bool :=
+  match lit_lookup prod_key_table w with
+  | Some (k', 0) => kname_eqb k' k
+  | _ => false
+  end.
+(* (byte tests instead of literal list patterns: those make the pattern-match compiler explode) *)
 Definition mod_entry_ok (e : list N * (kname * N)) : bool :=
+  let k := fst (snd e) in
+  let mods := snd (snd e) in
   match fst e with
-  | [27; 91; c; 59; m; 126] =>
-      (snd (snd e) =? m - 49)
-      && match lit_lookup prod_key_table [27; 91; c; 126] with
-         | Some (k, 0) => kname_eqb k (fst (snd e))
-         | _ => false
-         end
-  | [27; 91; 49; 59; m; fin] =>
-      (* CSI 1 ; m X  vs  CSI X  /  SS3 X *)
-      (snd (snd e) =? m - 49)
-      && match lit_lookup prod_key_table [27; 91; fin] with
-         | Some (k, 0) => kname_eqb k (fst (snd e))
-         | _ => false
-         end
-  | [27; 91; c1; c2; 59; m; 126] =>
-      (snd (snd e) =? m - 49)
-      && match lit_lookup prod_key_table [27; 91; c1; c2; 126] with
-         | Some (k, 0) => kname_eqb k (fst (snd e))
-         | _ => false
-         end
+  | [a; b; c; d; m; f] =>
+      if (a =? 27) && (b =? 91) && (d =? 59) then
+        if f =? 126 then (mods =? m - 49) && base_names [27; 91; c; 126] k        (* CSI n ; m ~ *)
+        else if c =? 49 then (mods =? m - 49) && base_names [27; 91; f] k          (* CSI 1 ; m X *)
+        else true
+      else true
+  | [a; b; c1; c2; d; m; f] =>
+      if (a =? 27) && (b =? 91) && (d =? 59) && (f =? 126)
+      then (mods =? m - 49) && base_names [27; 91; c1; c2; 126] k                   (* CSI nn ; m ~ *)
+      else true
   | _ => true
   end.
 Lemma mod_table_ok : forallb mod_entry_ok prod_key_table = true.
